@@ -80,6 +80,8 @@ def cases() -> Any:
         # the messages flagged here - as a plain string from a producer that announces no label types at all (labels_types null)
         "untyped": st.one_of(st.none(), st.none(), st.lists(st.booleans(), min_size=4, max_size=4)),
         "requeue_first": st.sampled_from([False, True]),
+        # save calls (by call order) the result backend fails; what is handed to the backend under an id is still that id's own result
+        "fail_saves": st.sampled_from([[], [], [], [0], [0, 1], [1]]),
     }).map(_sanitize))
 
 
@@ -171,6 +173,8 @@ def run_case(c: Dict[str, Any]) -> Outcome:
         tr = wh.Trace(loop)
         b = wh.ScriptedBroker(tr)
         rb = wh.RecordingBackend(tr)
+        if c.get("fail_saves"):
+            rb.fail = set(c["fail_saves"])       # the backend is down for these save calls (in call order); later ones succeed
         b.result_backend = rb
         if c.get("custom_ctx"):
             b.add_dependency_context({Marker: Marker()})
@@ -289,7 +293,7 @@ def run_case(c: Dict[str, Any]) -> Outcome:
             if not uc and (nodes[j]["ctx"] or any(nodes[d]["ctx"] for d in dg.descendants(nodes, j))):
                 risky = True
     out.nontrivial = bool(overlap and risky)
-    out.classes = [c_ for c_, f in (("overlap", overlap), ("uncached_ctx_reader", risky), ("custom_ctx", c.get("custom_ctx")), ("dependency_overrides", bool(c.get("overrides"))), ("context_only_via_dependencies", bool(c.get("no_task_ctx"))), ("label_less_messages", bool(c.get("no_labels"))), ("two_messages_same_task_id", bool(c.get("same_id"))), ("byte_identical_redelivery", bool(c.get("dup_payload"))), ("nested_mutable_argument", bool(c.get("bag"))), ("explicit_value_for_injected_parameter", bool(c.get("explicit_dep"))), ("dependency_free_task_optional_kwarg", bool(c.get("nodeps"))), ("typed_and_untyped_label_messages", bool(c.get("untyped")) and len({is_untyped(k) for k in range(len(msgs))}) == 2),
+    out.classes = [c_ for c_, f in (("overlap", overlap), ("uncached_ctx_reader", risky), ("custom_ctx", c.get("custom_ctx")), ("dependency_overrides", bool(c.get("overrides"))), ("context_only_via_dependencies", bool(c.get("no_task_ctx"))), ("label_less_messages", bool(c.get("no_labels"))), ("two_messages_same_task_id", bool(c.get("same_id"))), ("result_backend_fails_some_saves", bool(c.get("fail_saves"))), ("byte_identical_redelivery", bool(c.get("dup_payload"))), ("nested_mutable_argument", bool(c.get("bag"))), ("explicit_value_for_injected_parameter", bool(c.get("explicit_dep"))), ("dependency_free_task_optional_kwarg", bool(c.get("nodeps"))), ("typed_and_untyped_label_messages", bool(c.get("untyped")) and len({is_untyped(k) for k in range(len(msgs))}) == 2),
                                     ("generator_style", any(nodes[i]["style"] in dg.YIELDING for i in reach))) if f]
     out.trace = {"echoes": {str(k): [list(e[:3]) for e in v[:6]] for k, v in echoes.items()}, "spans": {str(k): v for k, v in spans.items()}}
     return out
